@@ -117,6 +117,16 @@ def run_to_cfg(case):
         raise Fail("cfg_language", "grammar and PDA differ: grammar-only %r, PDA-only %r" % (sorted(glang - lang, key=len)[:3], sorted(lang - glang, key=len)[:3]))
     if BP.snap_pda(P) != before:
         raise Fail("mutates_argument", "pda_to_cfg changed its argument")
+    if lang == RP.lang_upto(spec, L, empty_stack=True) and len(spec["F"]) >= 1:
+        # the PDA accepts (up to the bound) only with an empty stack: the documented parameter accepts_on_empty_stack=True must give the same language.
+        # The parameter promises nothing for words accepted with a non-empty stack, so it is only used when the reference finds none up to length L + 2.
+        if RP.lang_upto(spec, L + 2) == RP.lang_upto(spec, L + 2, empty_stack=True):
+            G2 = lib(PA.pda_to_cfg, P, True)
+            g2 = RC.lang_upto(RC.reduce(BC.snap_cfg(G2)), L)
+            if g2 != lang:
+                raise Fail("cfg_language_empty_stack_flag", "pda_to_cfg(P, accepts_on_empty_stack=True) and PDA differ: grammar-only %r, PDA-only %r" %
+                           (sorted(g2 - lang, key=len)[:3], sorted(lang - g2, key=len)[:3]))
+            cls.add("accepts_on_empty_stack_flag")
     return {"nt": nt, "cls": sorted(cls), "out": {"words": len(lang), "variables": len(gs["V"]), "rules": len(gs["R"])}}
 
 
